@@ -106,7 +106,7 @@ func newRegContainer(router string) *restful.Container {
 }
 
 var regProbes = []string{"/", "/a", "/a/", "/a/b", "/a/b/z", "/a/q/c", "/a/q/d", "/ab", "/ab/z", "/q", "/h/x", "/plain", "/a/q",
-	"/a/x", "/a/b/x", "/ab/x", "/a/q/c/x", "/q/x", "/a/dyn", "/users/7/a", "/users/7/b/x", "/x", "/a/b/dyn"}
+	"/a/x", "/a/b/x", "/ab/x", "/a/q/c/x", "/q/x", "/a/dyn", "/a/dyn2", "/q/dyn2", "/ab/dyn2", "/users/7/a", "/users/7/b/x", "/x", "/a/b/dyn"}
 
 func runRegHistory(tw *traceWriter, h regHistory, router string) {
 	tw.emit(map[string]interface{}{"e": "rhist", "ops": h.Ops, "router": router})
@@ -157,6 +157,29 @@ func runRegHistory(tw *traceWriter, h regHistory, router string) {
 						if !has {
 							addRegRoute(ws, s.root, "/dyn")
 							s.routes = append(s.routes, "/dyn")
+						}
+					}
+				}
+			}
+		case "swap": // RemoveRoute(/x) and Route(/dyn2) with no request in between: the number of routes stays
+			if ws, ok := live[op[1]]; ok {
+				for _, s := range content {
+					if s.root == op[1] {
+						hasX, hasD := false, false
+						for _, p := range s.routes {
+							hasX = hasX || p == "/x"
+							hasD = hasD || p == "/dyn2"
+						}
+						if hasX && !hasD {
+							ws.RemoveRoute(strings.TrimRight(s.root, "/")+"/x", "GET")
+							addRegRoute(ws, s.root, "/dyn2")
+							nr := []string{}
+							for _, p := range s.routes {
+								if p != "/x" {
+									nr = append(nr, p)
+								}
+							}
+							s.routes = append(nr, "/dyn2")
 						}
 					}
 				}
@@ -267,8 +290,10 @@ func runRegistry(planPath, outPath string, seed int64) {
 					handled[hp] = true
 					h.Ops = append(h.Ops, []string{"handle", hp})
 				}
-			case x < 90:
+			case x < 86:
 				h.Ops = append(h.Ops, []string{"route", pick(r, pool)})
+			case x < 93:
+				h.Ops = append(h.Ops, []string{"swap", pick(r, pool)})
 			default:
 				h.Ops = append(h.Ops, []string{"unroute", pick(r, pool)})
 			}
